@@ -370,4 +370,131 @@ theorem C04_wrong_params_invalid
   refine ⟨hbad, ?_⟩
   exact C04_p2wsh_auctioneer_only lt sq idealOK e tk (tweakA tk) σa _ (htl _ _) (hal _) he hσa hσl (Or.inr hbad)
 
+/-! ## taproot -/
+
+theorem schnorrSigLenOK_ne_nil (σ : Bytes) (h : schnorrSigLenOK σ = true) : σ ≠ [] := by
+  intro hn; subst hn; simp [schnorrSigLenOK] at h
+
+/-- **C04, taproot (versions 1 and 2).**  `program` is the output key Pool put into the pkScript.  The EC parts
+are ideal: `env.keySpendOK program σ` = "σ is a valid BIP-340 signature of the spending transaction under the
+output key" (producible only by trader and auctioneer together through MuSig2), and the commitment check
+accepts only what the output key commits to – Pool's expiry leaf with a 33-byte base-version control block
+(`hcommit`).  Then (no annex) the output is spendable exactly by the key path with such a signature, or by
+the script path `[σt, leaf, controlBlock]` with a valid trader signature and BIP-65 satisfied for the expiry
+(and `expiry ≠ 0`). -/
+theorem C04_taproot_spendable_iff (lt sq : Nat) (sigOK : Bytes → Bytes → Bool) (env : TapEnv) (e : Nat)
+    (tkx program : Bytes) (hx : tkx.length = 32) (he : e < 2 ^ 32) (witness : List Bytes)
+    (hna : hasAnnex witness = false) (hsz : ∀ x ∈ witness, x.length ≤ MaxScriptElementSize)
+    (hcommit : ∀ cb s, env.commitOK cb program s = true →
+      s = taprootExpiryScript e tkx ∧ cb.length = 33 ∧ ∃ v rest, cb = v :: rest ∧ v.toNat / 2 * 2 = 0xc0) :
+    verifyTaproot (stdCtx true lt sq sigOK) env program witness = .ok () ↔
+      (∃ σ, witness = [σ] ∧ schnorrSigLenOK σ = true ∧ env.keySpendOK program σ = true) ∨
+      (∃ σt cb, witness = [σt, taprootExpiryScript e tkx, cb] ∧
+        env.commitOK cb program (taprootExpiryScript e tkx) = true ∧
+        schnorrSigLenOK σt = true ∧ sigOK tkx σt = true ∧ CLTV lt sq e ∧ e ≠ 0) := by
+  have hN := numOK_scriptNum e he
+  rw [← cltv_iff]
+  generalize hr : witness.reverse = r
+  have hw : witness = r.reverse := by rw [← hr]; simp
+  subst hw
+  simp only [verifyTaproot, hna, if_false, Bool.false_eq_true]
+  match r, hr with
+  | [], _ => simp
+  | [sig], _ =>
+    simp only [List.reverse_cons, List.reverse_nil, List.nil_append, List.length_singleton,
+      List.reverse_singleton]
+    by_cases hl : schnorrSigLenOK sig = true <;> by_cases hk : env.keySpendOK program sig = true <;>
+      simp [hl, hk]
+  | cb :: script :: revStack, _ =>
+    have hrev : (cb :: script :: revStack).reverse.reverse = cb :: script :: revStack := by simp
+    have hlen : ¬ ((cb :: script :: revStack).reverse.length = 0) := by simp
+    simp only [hlen, if_false, hrev]
+    by_cases hc : env.commitOK cb program script = true
+    · obtain ⟨hs, hcl, v, rest, hcb, hver⟩ := hcommit cb script hc
+      subst hs
+      subst hcb
+      have hany : (revStack.any fun x => decide (x.length > MaxScriptElementSize)) = false := by
+        simp only [List.any_eq_false, decide_eq_true_eq]
+        intro x hx'
+        have := hsz x (by simp only [List.mem_reverse, List.mem_cons]; right; right; exact hx')
+        omega
+      have hrun : runScript (stdCtx true lt sq sigOK) (taprootInstrs e tkx) revStack = _ :=
+        tap_run lt sq sigOK e tkx (scriptNumBytes e) hx hN revStack
+      have hctx : ({ stdCtx true lt sq sigOK with tapscript := true } : Ctx) = stdCtx true lt sq sigOK := rfl
+      have hcl' : rest.length = 32 := by simpa using hcl
+      have hchk : (decide ((v :: rest).length < 33) || decide (((v :: rest).length - 33) % 32 ≠ 0) ||
+          decide ((v :: rest).length > 33 + 32 * 128)) = false := by
+        simp [hcl']
+      have hverb : (v.toNat / 2 * 2 ≠ 0xc0) = False := by simp [hver]
+      simp only [hchk, hc, parse_taprootExpiryScript e tkx hx he, hverb, hany, hctx, hrun, if_false,
+        Bool.false_eq_true, Bool.not_true]
+      constructor
+      · intro h
+        right
+        match revStack, h with
+        | [], h => simp at h
+        | σt :: more, h =>
+          simp only at h
+          by_cases h1 : σt = []
+          · simp [h1] at h
+          by_cases h2 : schnorrSigLenOK σt = false
+          · simp [h1, h2] at h
+          by_cases h3 : sigOK tkx σt = false
+          · simp [h1, h2, h3] at h
+          by_cases h4 : cltvSatisfied lt sq e = true
+          · simp only [h1, h2, h3, h4, if_false, if_true, tapFinal, hN.truthy] at h
+            by_cases h5 : more = []
+            · subst h5
+              by_cases h6 : e = 0
+              · simp [h6] at h
+              · exact ⟨σt, v :: rest, by simp, hc, by simpa using h2, by simpa using h3, h4, h6⟩
+            · simp [h5] at h
+          · simp [h1, h2, h3, h4] at h
+      · rintro (⟨σ, hσ, _⟩ | ⟨σt, cb', hw, _, h2, h3, h4, h5⟩)
+        · have := congrArg List.length hσ; simp at this
+        · have hw' : (v :: rest) :: taprootExpiryScript e tkx :: revStack =
+              [cb', taprootExpiryScript e tkx, σt] := by
+            have := congrArg List.reverse hw; simpa using this
+          have hrs : revStack = [σt] := by
+            injection hw' with _ h
+            injection h
+          subst hrs
+          simp [schnorrSigLenOK_ne_nil σt h2, h2, h3, h4, tapFinal, hN.truthy, h5]
+    · have hcf : env.commitOK cb program script = false := by simpa using hc
+      constructor
+      · intro h
+        exfalso
+        revert h
+        simp only [hcf, Bool.not_false, if_true]
+        split <;> simp
+      · rintro (⟨σ, hσ, _⟩ | ⟨σt, cb', hw, hc', _⟩)
+        · have := congrArg List.length hσ; simp at this
+        · have hw' : cb :: script :: revStack = [cb', taprootExpiryScript e tkx, σt] := by
+            have := congrArg List.reverse hw; simpa using this
+          injection hw' with h1 h
+          injection h with h2 _
+          subst h1; subst h2
+          exact absurd hc' hc
+
+def exTkx : Bytes := List.replicate 32 5
+def exSig : Bytes := List.replicate 64 7
+def exOKx : Bytes → Bytes → Bool := fun pk σ => pk == exTkx && σ == exSig
+
+/-- non-vacuity (taproot leaf): accepted at/after expiry, rejected before, with an empty or a foreign signature -/
+example :
+    code (runScript (stdCtx true 52560 0 exOKx) (taprootInstrs 52560 exTkx) [exSig]) = none ∧
+    code (runScript (stdCtx true 52559 0 exOKx) (taprootInstrs 52560 exTkx) [exSig]) = some .unsatisfiedLockTime ∧
+    code (runScript (stdCtx true 52560 0 exOKx) (taprootInstrs 52560 exTkx) [[]]) = some .checkSigVerify ∧
+    code (runScript (stdCtx true 52560 0 exOKx) (taprootInstrs 52560 exTkx) [List.replicate 64 8]) = some .nullFail := by
+  decide
+
+/-- non-vacuity (classification, lock time): concrete Pool-built witnesses -/
+example :
+    (spendExpiryTaproot (taprootExpiryScript 52560 exTkx) exSig (0xc0 :: exTkx)).map classify = some .expiry ∧
+    (spendExpiryTaproot (taprootExpiryScript 8388608 exTkx) exSig (0xc0 :: exTkx)).map classify = some .multisig ∧
+    (spendMultiSig (accountWitnessScript 52560 exTk exAk) [7] [9]).map classify = some .multisig ∧
+    (spendExpiry (accountWitnessScript 52560 exTk exAk) [7]).map classify = some .expiry ∧
+    (spendMuSig2Taproot exSig).map classify = some .multisig := by
+  decide
+
 end Pool.C04
